@@ -3,6 +3,7 @@
 package api
 
 import (
+	"encoding/hex"
 	"encoding/json"
 	"net/http"
 	"net/http/httptest"
@@ -32,11 +33,18 @@ type verifC03Group struct {
 	Routes []verifC03Route `json:"routes"`
 }
 
+// verifC03Req: Raw != "" builds the request from the raw target (net/http decodes it into URL.Path).
+type verifC03Req struct {
+	M   string `json:"m"`
+	P   string `json:"p"`
+	Raw string `json:"raw"`
+}
+
 type verifC03Case struct {
 	Kind   string          `json:"kind"`
 	Via    string          `json:"via"` // engine | server
 	Groups []verifC03Group `json:"groups"`
-	Reqs   []verifC03Route `json:"reqs"`
+	Reqs   []verifC03Req   `json:"reqs"`
 }
 
 type verifC03Call struct {
@@ -46,10 +54,12 @@ type verifC03Call struct {
 }
 
 type verifC03Res struct {
-	Clean  string      `json:"clean"`
+	Clean  string      `json:"clean"`  // hex
+	Path   string      `json:"path"`   // hex of r.URL.Path as served
+	BadReq bool        `json:"badreq"` // net/http refused the raw target
 	Status int         `json:"status"`
 	Hids   []int       `json:"hids"`
-	Vars   [][2]string `json:"vars"`
+	Vars   [][2]string `json:"vars"` // name, hex(value)
 	Allow  []string    `json:"allow"`
 	NF     int         `json:"nf"`
 }
@@ -143,18 +153,26 @@ func TestVerifDriverC03(t *testing.T) {
 		res := make([]verifC03Res, len(c.Reqs))
 		for i, rq := range c.Reqs {
 			hids, vars = nil, nil
-			r := httptest.NewRequest(http.MethodGet, "/", nil)
+			var r *http.Request
+			if rq.Raw != "" {
+				if bad, _ := verifdrv.Catch(func() { r = httptest.NewRequest(http.MethodGet, rq.Raw, nil) }); bad || r == nil {
+					res[i] = verifC03Res{BadReq: true, Hids: []int{}, Vars: [][2]string{}, Allow: []string{}}
+					continue
+				}
+			} else {
+				r = httptest.NewRequest(http.MethodGet, "/", nil)
+				r.URL.Path = rq.P
+			}
 			r.Method = rq.M
-			r.URL.Path = rq.P
 			rec := httptest.NewRecorder()
 			status := 0
 			if panicked, _ := verifdrv.Catch(func() { rt.ServeHTTP(rec, r) }); !panicked {
 				status = rec.Code
 			}
-			o := verifC03Res{Clean: path.Clean(rq.P), Status: status, Hids: append([]int{}, hids...),
-				Vars: [][2]string{}, Allow: []string{}}
+			o := verifC03Res{Clean: hex.EncodeToString([]byte(path.Clean(r.URL.Path))), Path: hex.EncodeToString([]byte(r.URL.Path)),
+				Status: status, Hids: append([]int{}, hids...), Vars: [][2]string{}, Allow: []string{}}
 			for k, v := range vars {
-				o.Vars = append(o.Vars, [2]string{k, v})
+				o.Vars = append(o.Vars, [2]string{k, hex.EncodeToString([]byte(v))})
 			}
 			sort.Slice(o.Vars, func(a, b int) bool { return o.Vars[a][0] < o.Vars[b][0] })
 			for _, h := range rec.Header().Values("Allow") {
